@@ -33,6 +33,7 @@ Lemma ok_parts :
      end).
 Proof.
   unfold tables_ok in Hok.
+  apply andb_true_iff in Hok as [Hok _].
   apply andb_true_iff in Hok as [Hok Hta].
   apply andb_true_iff in Hok as [Hok Hanyrow].
   apply andb_true_iff in Hok as [Hok Hany].
@@ -160,6 +161,122 @@ Proof.
     + rewrite (ta_pre_none_indep k arg Epre) in Hpre. apply Hpre. exact Hty.
 Qed.
 End Entry.
+
+(* ---- kinds outside allTypes: patterns without a start-anywhere alternative *)
+Section Tight.
+Variable T : entry_tables.
+Hypothesis Hok : tables_ok T = true.
+Variable cfg : matcher_cfg.
+Variable orc : oracle.
+Variable af : nat.
+
+Lemma ok_heads k q : In k ta_kinds -> ta_pre k PAny = Some q -> forall ty, In ty (head_kinds q) -> In ty (row_of T k).
+Proof.
+  intros Hk Hq ty Hty. unfold tables_ok in Hok. apply andb_true_iff in Hok as [_ H].
+  rewrite forallb_forall in H. specialize (H k Hk). rewrite Hq in H. eapply incl_b_In; eassumption.
+Qed.
+
+(* a pattern made of Or and struct nodes matches a node only at one of its head kinds *)
+Fixpoint heads_shape (q : pat) : bool :=
+  match q with
+  | PNode _ _ => true
+  | POr ps => (fix go (l : list pat) : bool := match l with [] => true | x :: l' => heads_shape x && go l' end) ps
+  | _ => false
+  end.
+Lemma heads_shape_or ps q : heads_shape (POr ps) = true -> In q ps -> heads_shape q = true.
+Proof.
+  simpl. induction ps as [|x ps IH]; intros H Hin; [contradiction|].
+  apply andb_true_iff in H as [H1 H2]. destruct Hin as [->|Hin]; [exact H1|apply IH; assumption].
+Qed.
+Lemma head_kinds_or ps q ty : In q ps -> In ty (head_kinds q) -> In ty (head_kinds (POr ps)).
+Proof.
+  simpl. induction ps as [|x ps IH]; intros Hin Hty; [contradiction|].
+  apply in_or_app. destruct Hin as [->|Hin]; [left; exact Hty|right; apply IH; assumption].
+Qed.
+
+Lemma heads_sound ty fs : unwrap (cfg_unwrap_right cfg) (VNode ty fs) = UNo ->
+  forall fuel q s v sigma, heads_shape q = true ->
+    ms cfg orc af fuel q (VNode ty fs) s = RDone true v sigma -> In ty (head_kinds q).
+Proof.
+  intro Hu. induction fuel as [|fuel IH]; intros q s v sigma Hshape H; [discriminate|].
+  simpl ms in H. unfold ms_step in H. rewrite Hu in H.
+  destruct q; try discriminate.
+  - apply s_or_inv in H as [pre [q [post [-> [_ Hq]]]]].
+    assert (Hin : In q (pre ++ q :: post)) by (apply in_or_app; right; left; reflexivity).
+    eapply head_kinds_or; [exact Hin|]. eapply IH; [|exact Hq]. eapply heads_shape_or; eassumption.
+  - simpl in H. destruct (String.eqb ty0 ty) eqn:E; [|discriminate]. apply String.eqb_eq in E. subst. left. reflexivity.
+Qed.
+
+Lemma pre_shape k arg q : ta_pre k arg = Some q -> heads_shape q = true.
+Proof.
+  unfold ta_pre. destruct (String.eqb k "Symbol"); [intro H; inversion H; reflexivity|].
+  destruct (String.eqb k "Builtin"); [intro H; inversion H; reflexivity|].
+  destruct (String.eqb k "Object"); [intro H; inversion H; reflexivity|].
+  destruct (String.eqb k "IntegerLiteral"); [intro H; inversion H; reflexivity|discriminate].
+Qed.
+Lemma pre_heads_indep k arg q q0 : ta_pre k arg = Some q -> ta_pre k PAny = Some q0 -> head_kinds q = head_kinds q0.
+Proof.
+  unfold ta_pre. destruct (String.eqb k "Symbol"); [intros H1 H2; inversion H1; inversion H2; reflexivity|].
+  destruct (String.eqb k "Builtin"); [intros H1 H2; inversion H1; inversion H2; reflexivity|].
+  destruct (String.eqb k "Object"); [intros H1 H2; inversion H1; inversion H2; reflexivity|].
+  destruct (String.eqb k "IntegerLiteral"); [intros H1 H2; inversion H1; inversion H2; reflexivity|discriminate].
+Qed.
+Lemma tight_or ps q : tight T (POr ps) = true -> In q ps -> tight T q = true.
+Proof.
+  simpl. induction ps as [|x ps IH]; intros H Hin; [contradiction|].
+  apply andb_true_iff in H as [H1 H2]. destruct Hin as [->|Hin]; [exact H1|apply IH; assumption].
+Qed.
+
+(* entry_sound at EVERY kind (also outside allTypes) for patterns without a start-anywhere alternative *)
+Theorem entry_sound_tight_gen ty fs :
+  unwrap (cfg_unwrap_right cfg) (VNode ty fs) = UNo ->
+  forall fuel p s v sigma, known_pat_b p = true -> tight T p = true ->
+    ms cfg orc af fuel p (VNode ty fs) s = RDone true v sigma -> In ty (entry_kinds T p).
+Proof.
+  intros Hu.
+  destruct (ok_parts T Hok) as [Hrows [Hor [Hbind [Hnot [Hnil [Hnone [Hany [Hanyrow Hta]]]]]]]].
+  induction fuel as [|fuel IH]; intros p s v sigma Hk Ht H; [discriminate|].
+  simpl ms in H. unfold ms_step in H. rewrite Hu in H.
+  destruct p as [| | |str|t|name idx sub|hd tl|ps|q|pty pfs|k arg]; try discriminate.
+  - (* PBinding *)
+    rewrite (ek_binding T) by exact Hbind. simpl in Hk. simpl in Ht. apply andb_true_iff in Ht as [Hn Hts].
+    apply negb_true_iff in Hn. unfold s_binding in H. rewrite Hn in H.
+    destruct (lookup name s); [discriminate|].
+    destruct (ms cfg orc af fuel sub (VNode ty fs) s) as [| |ok v1 s1] eqn:E; try discriminate.
+    destruct ok; [|discriminate]. eapply IH; eassumption.
+  - (* POr *)
+    apply s_or_inv in H as [pre [q [post [-> [_ Hq]]]]].
+    assert (Hin : In q (pre ++ q :: post)) by (apply in_or_app; right; left; reflexivity).
+    eapply (ek_or T); [exact Hor | exact Hin |].
+    eapply IH; [| |exact Hq]; [eapply known_or; eassumption|eapply tight_or; eassumption].
+  - (* PNode *)
+    simpl in H. destruct (String.eqb pty ty) eqn:E; [|discriminate]. apply String.eqb_eq in E. subst pty.
+    simpl in Ht. apply mem_In in Ht. destruct (Hrows ty Ht) as [Hin Htab]. rewrite (ek_table T) by exact Htab. exact Hin.
+  - (* PTypeAware *)
+    change (known_pat_b (PTypeAware k arg)) with (mem k ta_kinds && negb (is_pnone arg) && known_pat_b arg) in Hk.
+    apply andb_true_iff in Hk as [Hkk _]. apply andb_true_iff in Hkk as [Hkk _]. apply mem_In in Hkk.
+    destruct (Hta k Hkk) as [Htab _]. rewrite (ek_table T) by exact Htab. simpl pat_type.
+    simpl in Ht. destruct (ta_pre k PAny) as [q0|] eqn:Eq0; [|discriminate].
+    unfold s_ta in H. destruct (ta_pre k arg) as [q|] eqn:Epre.
+    + apply (ok_heads k q0 Hkk Eq0). rewrite <- (pre_heads_indep k arg q q0 Epre Eq0).
+      destruct (ms cfg orc af fuel q (VNode ty fs) s) as [| |ok v1 s1] eqn:E; try discriminate.
+      destruct ok; [|discriminate]. eapply heads_sound; [exact Hu| |exact E]. eapply pre_shape. exact Epre.
+    + rewrite (ta_pre_none_indep k arg Epre) in Eq0. discriminate.
+Qed.
+
+(* ... hence a match through such an alternative of an Or is never lost to the entry-kind restriction, whatever
+   the other alternatives are *)
+Corollary entry_sound_alt_gen ty fs ps q :
+  unwrap (cfg_unwrap_right cfg) (VNode ty fs) = UNo ->
+  In q ps -> known_pat_b q = true -> tight T q = true ->
+  forall fuel s v sigma, ms cfg orc af fuel q (VNode ty fs) s = RDone true v sigma ->
+    In ty (entry_kinds T (POr ps)).
+Proof.
+  intros Hu Hin Hk Ht fuel s v sigma H.
+  destruct (ok_parts T Hok) as [_ [Hor _]].
+  eapply (ek_or T); [exact Hor|exact Hin|]. eapply entry_sound_tight_gen; eassumption.
+Qed.
+End Tight.
 
 (* wrapper_transparent: on a transparent wrapper node the matcher does exactly what it does on the node
    it wraps, so the wrapper copies of a match carry no information of their own (the "core node"). *)
